@@ -37,6 +37,7 @@ import (
 
 const vf20KeyNilDeref = "C20:preinitialised-UtlsPreSharedKeyExtension-nil-deref"
 const vf20KeyWBreaks = "C20:build-without-session-breaks-tls13-handshake"
+const vf20KeyCustomDropped = "C20:custom-spec-applied-before-setter-session-not-sent"
 
 const vf20Name = "c20.test"
 
@@ -329,18 +330,19 @@ type vf20Machine struct {
 	pair *vfPair
 	uc   *UConn
 
-	cacheSet bool
-	built    bool
-	hsDone   bool
-	dead     bool
-	nSetters int
-	inj      *vf20Inj
-	status   string // "allowed" | "forbidden:<why>" | "unspecified:<why>"
-	needFail bool   // session injected for an extension the spec lacks: error, or the session stays off the wire
-	sawFail  bool
-	wFirst   bool // BuildHandshakeStateWithoutSession was called before the first session-loading build
-	trace    []string
-	log      []string
+	cacheSet  bool
+	built     bool
+	hsDone    bool
+	dead      bool
+	nSetters  int
+	inj       *vf20Inj
+	status    string // "allowed" | "forbidden:<why>" | "unspecified:<why>"
+	needFail  bool   // session injected for an extension the spec lacks: error, or the session stays off the wire
+	sawFail   bool
+	wFirst    bool // BuildHandshakeStateWithoutSession was called before the first session-loading build
+	fieldsPsk bool // a UtlsPreSharedKeyExtension filled through its exported fields was handed to SetPskExtension
+	trace     []string
+	log       []string
 }
 
 func vf20NewMachine(st *vfStats, t vfFataler, env *vf20Env, cacheInConfig bool) (*vf20Machine, error) {
@@ -379,8 +381,7 @@ func (m *vf20Machine) judgePanic(op vf20Op, p *vfPanic) {
 	m.dead = true
 	m.log = append(m.log, fmt.Sprintf("%s panicked: %v", op, p.Val))
 	if _, isRT := p.Val.(runtime.Error); isRT {
-		if m.inj != nil && m.inj.Fields && m.inj.Kind == "psk" && strings.HasPrefix(m.status, "allowed") &&
-			strings.Contains(fmt.Sprint(p.Val), "nil pointer dereference") && strings.Contains(p.Stack, "UtlsPreSharedKeyExtension") {
+		if m.fieldsPsk && strings.Contains(fmt.Sprint(p.Val), "nil pointer dereference") && strings.Contains(p.Stack, "UtlsPreSharedKeyExtension).PatchBuiltHello") {
 			m.st.Class("outcome:known:preinitialised-psk-ext-nil-deref")
 			m.st.KnownOrViolation(m.t, vf20KeyNilDeref, "%s: UtlsPreSharedKeyExtension initialised through its exported fields (IsInitialized()==true) then %s: %v\n  ops=%s\n%s",
 				m.env.id.Name, op, p.Val, strings.Join(m.trace, " "), vf20Frames(p.Stack))
@@ -561,6 +562,9 @@ func (m *vf20Machine) step(op vf20Op) {
 			call = func() { err = m.uc.SetPskExtension(ext) }
 		default:
 			fields := strings.HasSuffix(v, "-fields")
+			if fields {
+				m.fieldsPsk = true
+			}
 			setter("psk", true, &vf20Inj{Kind: "psk", Variant: "P-" + v, Session: sess, Ticket: sess.ticket, Age: age, Fields: fields})
 			ext := m.pskExt(sess, fields, age)
 			call = func() { err = m.uc.SetPskExtension(ext) }
@@ -686,6 +690,12 @@ func (m *vf20Machine) handshake(op vf20Op) {
 		if e == nil {
 			m.fail("session_ticket extension missing from the wire although the spec carries it")
 		}
+		if m.env.id.custom() && len(e.Body) == 0 && len(inj.Ticket) > 0 {
+			m.st.Class("outcome:known:custom-spec-session-not-sent")
+			m.st.KnownOrViolation(m.t, vf20KeyCustomDropped, "%s (HelloCustom, ApplyPreset before the setter): the injected %d-byte session ticket is not sent, the session_ticket extension on the wire is empty; ops=%s",
+				m.env.id.Name, len(inj.Ticket), strings.Join(m.trace, " "))
+			return
+		}
 		if !bytes.Equal(e.Body, inj.Ticket) {
 			m.fail("session ticket on the wire (%d bytes) is not the injected one (%d bytes)", len(e.Body), len(inj.Ticket))
 		}
@@ -695,6 +705,12 @@ func (m *vf20Machine) handshake(op vf20Op) {
 		wantResume = inj.Session != nil && ccs.Version == VersionTLS12
 	case "psk":
 		p := h.PSK()
+		if p == nil && m.env.id.custom() {
+			m.st.Class("outcome:known:custom-spec-session-not-sent")
+			m.st.KnownOrViolation(m.t, vf20KeyCustomDropped, "%s (HelloCustom, ApplyPreset before the setter): the injected PSK identity is not sent, no pre_shared_key on the wire; ops=%s",
+				m.env.id.Name, strings.Join(m.trace, " "))
+			return
+		}
 		if p == nil {
 			m.fail("pre_shared_key missing from the wire although a PSK was injected")
 		}
@@ -969,7 +985,7 @@ func TestVerifC20Directed(t *testing.T) {
 		{{Kind: "P", Variant: "forged", Pick: 1}, {Kind: "B"}, {Kind: "B"}, {Kind: "H"}},
 		{{Kind: "P", Variant: "fake", Pick: 3}, {Kind: "H"}},
 		{{Kind: "P", Variant: "forged-fields"}, {Kind: "B"}, {Kind: "H"}}, // the known class
-		{{Kind: "W"}, {Kind: "P", Variant: "real-fields"}, {Kind: "H"}},    // the known class
+		{{Kind: "W"}, {Kind: "P", Variant: "real-fields"}, {Kind: "H"}},   // the known class
 		{{Kind: "B"}, {Kind: "T", Variant: "forged"}, {Kind: "H"}},        // forbidden: after build
 		{{Kind: "B"}, {Kind: "P", Variant: "forged"}, {Kind: "H"}},        // forbidden: after build
 	}
